@@ -1,6 +1,7 @@
 import SnaxVerif.Lemmas.Tsl
 import SnaxVerif.Lemmas.TslResolve
 import SnaxVerif.Lemmas.TslStrided
+import SnaxVerif.Lemmas.TslDeep2
 /-!
 # C10 — a tiled-strided layout means the same thing everywhere
 
@@ -380,6 +381,69 @@ multiplies by the element size 4: steps (160, 40) instead of (40, 10). -/
 theorem stepsAtStrided_elements_fails :
     stepsAtStrided ⟨[[⟨none, none⟩, ⟨none, some 4⟩]], some 0⟩ [[2, 4]] 1 4 [10] = .ok [[160, 40]] := by
   decide +kernel
+
+/-! ## Second deepening round -/
+
+/-- **Every enumerating view of the canonical form equals that of the layout.** For a static positive layout
+the canonical form is again static and positive, and `all_values`, `self_overlaps` and `is_dense` of
+`canonicalize()` are exactly those of the layout (same list, same order) — so all views, not only `addr`, are
+invariant under canonicalisation. -/
+theorem canonicalize_views (s : SLayout) (off : Option Int) (hpos : SPos s) :
+    ∃ s', (ofStatic s off).canonicalize = ofStatic s' off ∧ SPos s' ∧
+      (ofStatic s' off).allValues = (ofStatic s off).allValues ∧
+      (ofStatic s' off).selfOverlaps = (ofStatic s off).selfOverlaps ∧
+      (ofStatic s' off).isDense = (ofStatic s off).isDense := by
+  refine ⟨s.map canonS, canonicalize_ofStatic s off, spos_canonS s hpos, allValues_canonS s off hpos, ?_, ?_⟩
+  · simp only [Layout.selfOverlaps, allValues_canonS s off hpos]
+  · simp only [Layout.isDense, allValues_canonS s off hpos]
+
+/-- **Subview pointer in general (no alignment clause): base + el · addr(offsets rounded down to their tiles).**
+For every static positive layout and every mix of static / dynamic offsets (one per dimension), with fix F13:
+the lowered pointer is the address of the first element of the tile row that contains the offset. For
+tile-aligned offsets this is `subviewPtr_partial`; for the others it says exactly what D23b loses (the inner
+digits). -/
+theorem subviewPtr_floor (s : SLayout) (el base : Nat) (offs : List (Option Nat)) (dyn vals : List Nat)
+    (hpos : SPos s) (hmerge : mergeOffs offs dyn = some vals) (hshape : Shaped s vals) :
+    subviewPtr true el base (s.map (·.map SStride.toStride)) offs dyn
+      = .ok (base + el * addr s (floorTile s vals)) := by
+  obtain ⟨terms, ht, hsum⟩ := subviewTerms_floor s el offs dyn vals hpos hmerge hshape
+  simp [subviewPtr, ht, Except.map, hsum]
+
+/-- **A dimension built by `from_stride` from a STATIC plain stride with ANY outermost bound** (static or `?`)
+on a strided memref: its resolved steps are the steps of `from_stride(s·el, bounds)` — address `s·el·i` at every
+index. Together with `strided_dynamic_dim` and `stepsAtStrided_eq` this covers every layout `from_strides`
+builds for snax-copy-to-dma (positive strides and inner bounds). -/
+theorem strided_static_dim (st : Nat) (hst : 0 < st) (o : Option Nat) (inner : List Nat)
+    (hin : ∀ b ∈ inner, 0 < b) (n σ E el : Nat) :
+    let d : DimM := ⟨fromStride (some st) (o :: inner.map some), n :: inner, σ⟩
+    d.Ok ∧ dimSteps el E d = (fromStrideS (st * el) (n :: inner)).map (·.step) ∧
+      ∀ i, addrDim (fromStrideS (st * el) (n :: inner)) i = st * el * i := by
+  intro d
+  have hT : d.T = ⟨some (prodL inner * st), o⟩ :: (fromStrideS st inner).map SStride.toStride :=
+    fromStride_static_outer st hst o inner hin
+  have hall : ∀ x ∈ d.T, ∃ s', x.step = some s' := by
+    intro x hx
+    rw [hT] at hx
+    rcases List.mem_cons.mp hx with rfl | hx
+    · exact ⟨_, rfl⟩
+    · obtain ⟨y, _, rfl⟩ := List.mem_map.mp hx
+      exact ⟨y.step, rfl⟩
+  have hlenS : ∀ r : List Nat, (fromStrideS st r).length = r.length := by
+    intro r; induction r with
+    | nil => rfl
+    | cons b r ih => simp [fromStrideS, ih]
+  refine ⟨⟨by rw [hT]; simp, by rw [hT]; simp [d, hlenS], Or.inr hall⟩, ?_, ?_⟩
+  · have htest : ¬ d.T.all (fun x => x.step.isNone) = true := by
+      rw [hT]; simp
+    rw [dimSteps, if_neg htest, hT]
+    simp only [List.map_cons, List.map_map, fromStrideS, Option.getD_some]
+    refine congrArg₂ _ (by rw [Nat.mul_assoc]) ?_
+    rw [← steps_scale]
+    apply List.map_congr_left
+    intro x _
+    rfl
+  · intro i
+    exact addrDim_fromStrideS (st * el) (n :: inner) (by simp) i
 
 /-- what the property's quantifier needs for the textual form: no step or bound is the literal `0` (the
 printer writes `?` for it: `str(x) if x else "?"`), and a rank-0 layout has offset 0 (otherwise the printed
